@@ -25,7 +25,7 @@ def seeded():
     def key(d):
         m = re.match(r".*/(r(\d)-)?C(\d+)-(\d+)$", d)
         return (int(m.group(2)) if m.group(1) else 1, int(m.group(3)), int(m.group(4)))
-    for d in sorted(glob.glob(os.path.join(V, "seeded", "*")), key=key):
+    for d in sorted([x for x in glob.glob(os.path.join(V, "seeded", "*")) if os.path.isdir(x)], key=key):
         if not os.path.exists(os.path.join(d, "meta.json")):
             continue
         m = json.load(open(os.path.join(d, "meta.json")))
